@@ -321,6 +321,10 @@ def _slice_form(c, fn, st, gname):
         while isinstance(base, ast.Call) and isinstance(base.func, ast.Name) and base.func.id in ("array", "asarray") and len(base.args) == 1 \
                 and not base.keywords:
             base = base.args[0]          # array(self.X)[b::t] holds the entries of array(self.X[b::t])
+        # a column picked first, X[:, index][b::t], is the same entries as X[b::t, index]
+        while isinstance(base, ast.Subscript) and isinstance(base.slice, ast.Tuple) and base.slice.elts and isinstance(base.slice.elts[0], ast.Slice) \
+                and base.slice.elts[0].lower is None and base.slice.elts[0].upper is None and base.slice.elts[0].step is None:
+            base = base.value
         if isinstance(want_store, tuple):
             okb = isinstance(base, ast.Attribute) and base.attr == want_store[1] and f"self.{want_store[0]}" in U(fn)
         else:
@@ -507,8 +511,8 @@ def _parallel(prog, c, fn):
         except SyntaxError:
             bad_sel.append((t, "not understood"))
             continue
-        if isinstance(tn, ast.Call) and U(tn.func) == "sorted" and len(tn.args) == 1:
-            tn = tn.args[0]
+        if isinstance(tn, ast.Call) and U(tn.func) in ("sorted", "sort") and len(tn.args) == 1 and not tn.keywords:
+            tn = tn.args[0]                  # the same rows in ascending position
         distinct = any(pmatch(tn, pt) is not None for pt in (
             "_p.argsort()", "argsort(_p)", "_p.argsort()[_a:]", "argsort(_p)[_a:]", "permutation(_n)[_a:]", "permutation(_n)[:_a]", "_r.permutation(_n)[_a:]", "_r.permutation(_n)[:_a]",
             "choice(_n, size=_k, replace=False)", "choice(_n, _k, False)", "choice(_n, _k, replace=False)", "_r.choice(_n, size=_k, replace=False)",
